@@ -21,7 +21,44 @@ type decCase struct {
 
 type decBatch struct {
 	Decoder string   `json:"decoder"`
-	Strs    [][]byte `json:"strings"`
+	Strs    [][]byte `json:"strings,omitempty"`
+	// generated batch: Prefix followed by the byte strings of length <= 3 over all 256 byte values with
+	// enumeration index in [Lo,Hi) (index 0 is the empty string, then length 1, 2, 3 in base-256 order)
+	Gen    bool   `json:"gen,omitempty"`
+	Prefix []byte `json:"prefix,omitempty"`
+	Lo     int64  `json:"lo,omitempty"`
+	Hi     int64  `json:"hi,omitempty"`
+}
+
+const allBytes3 = 1 + 256 + 256*256 + 256*256*256
+
+// allBytesString returns string number i of the enumeration of all byte strings of length <= 3.
+func allBytesString(prefix []byte, i int64) []byte {
+	out := append([]byte{}, prefix...)
+	switch {
+	case i == 0:
+	case i < 1+256:
+		out = append(out, byte(i-1))
+	case i < 1+256+65536:
+		x := i - 257
+		out = append(out, byte(x>>8), byte(x))
+	default:
+		x := i - 257 - 65536
+		out = append(out, byte(x>>16), byte(x>>8), byte(x))
+	}
+	return out
+}
+
+func (b decBatch) each(f func(s []byte)) {
+	if !b.Gen {
+		for _, s := range b.Strs {
+			f(s)
+		}
+		return
+	}
+	for i := b.Lo; i < b.Hi; i++ {
+		f(allBytesString(b.Prefix, i))
+	}
 }
 
 const c08MaxN = 4096
@@ -129,12 +166,12 @@ func evalDecode(dc decCase) *Failure {
 func evalDecodeBatch(b decBatch) *Failure {
 	var fs []*Failure
 	seen := map[string]bool{}
-	for _, s := range b.Strs {
+	b.each(func(s []byte) {
 		if f := evalDecode(decCase{Decoder: b.Decoder, S: s}); f != nil && !seen[f.Class] {
 			seen[f.Class] = true
 			fs = append(fs, f)
 		}
-	}
+	})
 	if len(fs) == 0 {
 		return nil
 	}
@@ -228,8 +265,8 @@ func c08Strings(decoder string, thorough bool) [][]byte {
 		for i := 0; i <= len(b); i++ {
 			add(b[:i]) // truncation
 			if i < len(b) {
-				add(append(append([]byte{}, b[:i]...), b[i+1:]...))                         // delete
-				add(append(append(append([]byte{}, b[:i+1]...), b[i]), b[i+1:]...))          // duplicate
+				add(append(append([]byte{}, b[:i]...), b[i+1:]...))                 // delete
+				add(append(append(append([]byte{}, b[:i+1]...), b[i]), b[i+1:]...)) // duplicate
 				if len(b) <= 12 || i < 6 || i >= len(b)-3 {
 					for _, a := range editAlpha {
 						r := append([]byte{}, b...)
@@ -246,6 +283,9 @@ func c08Strings(decoder string, thorough bool) [][]byte {
 func runC08(c *Ctx) {
 	c.Level = "exploration"
 	c.Rule = "every byte string over the reduced alphabet {62,63,64,66,73,94,126,127} (+ ':' ';' for sparse6) up to length 6-7 (7-8 thorough), with the optional header and every proper prefix of it, plus the closure of valid encodings (all graphs with n<=4, structured graphs with n in {5,8,16,17,63,64}) under single-byte delete/duplicate/replace/truncate; strings whose declared n exceeds 4096 are skipped; each string: no panic, returns, error or a well-formed graph on the declared n whose re-encoding decodes to itself; evaluated in crash-isolated worker batches; non-trivial = string that the decoder accepts"
+	if c.Thorough() {
+		c.Rule += "; THOROUGH: additionally every byte string of length <= 3 over all 256 byte values (16843009 strings), bare and after each of the prefixes that open the size field or its long forms (6 prefixes for graph6, 7 for sparse6), generated inside the workers"
+	}
 	for _, dec := range []string{"graph6", "sparse6"} {
 		strs := c08Strings(dec, c.Thorough())
 		c.Count("strings_"+dec, int64(len(strs)))
@@ -260,6 +300,30 @@ func runC08(c *Ctx) {
 			b := decBatch{Decoder: dec, Strs: strs[i:j]}
 			batches = append(batches, b)
 			raw = append(raw, b)
+		}
+		total := int64(len(strs))
+		if c.Thorough() {
+			// thorough: every byte string of length <= 3 over ALL 256 byte values, bare and behind the prefixes
+			// that lead into the size field and the long-size escapes; generated inside the workers
+			prefixes := []string{"", "~", "~~", "?", "@", "C"}
+			if dec == "sparse6" {
+				prefixes = []string{"", ":", ":~", ":~~", ":?", ":@", ":C"}
+			}
+			for _, pf := range prefixes {
+				const GB = 1 << 16
+				for lo := int64(0); lo < allBytes3; lo += GB {
+					hi := lo + GB
+					if hi > allBytes3 {
+						hi = allBytes3
+					}
+					b := decBatch{Decoder: dec, Gen: true, Prefix: []byte(pf), Lo: lo, Hi: hi}
+					batches = append(batches, b)
+					raw = append(raw, b)
+				}
+				total += allBytes3
+			}
+			c.Count("strings_all_256_byte_values_len<=3_"+dec, int64(len(prefixes))*allBytes3)
+			c.Bound("full_byte_alphabet_prefixes_"+dec, prefixes)
 		}
 		var mu sync.Mutex
 		var abnormal []int
@@ -285,17 +349,17 @@ func runC08(c *Ctx) {
 				c.Fail(x)
 			}
 		})
-		c.evals = before + int64(len(strs))
+		c.evals = before + total
 		if len(abnormal) > 0 {
 			// batches that killed or hung their worker: re-run them one string at a time to name the culprit
 			var singles []interface{}
 			var singleCases []decCase
 			for _, bi := range abnormal {
-				for _, s := range raw[bi].Strs {
+				raw[bi].each(func(s []byte) {
 					dc := decCase{Decoder: dec, S: s}
 					singles = append(singles, dc)
 					singleCases = append(singleCases, dc)
-				}
+				})
 			}
 			ev := c.evals
 			c.RunIsolated("decode-one", singles, 60*time.Second, func(i int, timedOut bool, stderr string) *Failure {
